@@ -1,8 +1,27 @@
 /* harnesses: one entry point per function under contract; dfcc makes arguments and ghosts nondeterministic */
 #define CANARY __CPROVER_assert(0, "VACUITY-CANARY")
-size_t g_eq_witness;
-static _Bool X_equal__CItT_CItT_CItT_CItT(struct CItT f1, struct CItT l1, struct CItT f2, struct CItT l2) { return 0; }
-static _Bool X_equal__CItF_CItF_CItF_CItF(struct CItF f1, struct CItF l1, struct CItF f2, struct CItF l2) { return 0; }
+
+/* std::equal(first1, last1, first2, last2) for random-access iterators: distances must agree, then
+ * element-wise ==.  The loop is modelled by a nondeterministic witness: a mismatch may be found at any
+ * index (return false); "no mismatch" is only reported for index g_k-consistent executions.  The model's
+ * behaviours include every behaviour of the real algorithm (DESIGN.md 3.2). */
+#define EQUAL_MODEL(CI) \
+static _Bool X_equal__##CI##_##CI##_##CI##_##CI(struct CI f1, struct CI l1, struct CI f2, struct CI l2) { \
+  long d1 = CI##__op_sub__##CI##_const(&l1, f1), d2 = CI##__op_sub__##CI##_const(&l2, f2); \
+  if (d1 != d2) return 0; \
+  size_t w = g_eq_witness; \
+  if (d1 > 0 && w < (size_t)d1) { \
+    struct CI a = f1, b = f2; a.m_index += w; b.m_index += w; \
+    if (!Elem__op_eq(CI##__op_deref(&a), CI##__op_deref(&b))) return 0; \
+  } \
+  if (d1 > 0 && g_k < (size_t)d1) { \
+    struct CI a = f1, b = f2; a.m_index += g_k; b.m_index += g_k; \
+    __CPROVER_assume(Elem__op_eq(CI##__op_deref(&a), CI##__op_deref(&b))); \
+  } \
+  return 1; \
+}
+EQUAL_MODEL(CItT)
+EQUAL_MODEL(CItF)
 
 #define HARNESSES(T) \
 void h_##T##_modCap(void) { struct T *s; long i; T##__modCap(s, i); CANARY; } \
@@ -31,6 +50,37 @@ void h_##T##_silentCopy(void) { struct closure_##T##__resize_1 *c; struct Elem *
 void h_##T##_resize_shrink_inplace(void) { struct T *s; size_t n; __CPROVER_assume(g_case == 1); T##__resize(s, n); CANARY; } \
 void h_##T##_resize_shrink_move(void) { struct T *s; size_t n; __CPROVER_assume(g_case == 4); T##__resize(s, n); CANARY; } \
 void h_##T##_resize_grow(void) { struct T *s; size_t n; __CPROVER_assume(g_case == 2); T##__resize(s, n); CANARY; } \
+void h_##T##_begin(void) { struct T *s; void *r; T##__begin__void(s, r); CANARY; } \
+void h_##T##_end(void) { struct T *s; void *r; T##__end__void(s, r); CANARY; } \
+void h_##T##_begin_c(void) { struct T *s; void *r; T##__begin__void_const(s, r); CANARY; } \
+void h_##T##_end_c(void) { struct T *s; void *r; T##__end__void_const(s, r); CANARY; } \
+void h_##T##_cbegin(void) { struct T *s; void *r; T##__cbegin(s, r); CANARY; } \
+void h_##T##_cend(void) { struct T *s; void *r; T##__cend(s, r); CANARY; } \
 void h_##T##_resize_same(void) { struct T *s; size_t n; __CPROVER_assume(g_case == 3); T##__resize(s, n); CANARY; }
 HARNESSES(RBt)
 HARNESSES(RBf)
+
+void h_RBt_op_eq(void) { struct RBt *a, *b; RBt__op_eq_T_1(a, b); CANARY; }
+void h_RBf_op_eq(void) { struct RBf *a, *b; RBf__op_eq_T_0(a, b); CANARY; }
+#define ITER_HARNESSES(I, T) \
+void h_##I##_ctor(void) { struct I *s; struct T *c; size_t i; I##__ctor(s, c, i); CANARY; } \
+void h_##I##_op_inc(void) { struct I *s; I##__op_inc(s); CANARY; } \
+void h_##I##_op_dec(void) { struct I *s; I##__op_dec(s); CANARY; } \
+void h_##I##_op_postinc(void) { struct I *s; struct I *r; I##__op_postinc(s, 0, r); CANARY; } \
+void h_##I##_op_postdec(void) { struct I *s; struct I *r; I##__op_postdec(s, 0, r); CANARY; } \
+void h_##I##_op_add_assign(void) { struct I *s; long i; I##__op_add_assign(s, i); CANARY; } \
+void h_##I##_op_sub_assign(void) { struct I *s; long i; I##__op_sub_assign(s, i); CANARY; } \
+void h_##I##_op_add(void) { struct I *s; struct I *r; long i; I##__op_add(s, i, r); CANARY; } \
+void h_##I##_op_sub(void) { struct I *s; struct I *r; long i; I##__op_sub__long_const(s, i, r); CANARY; } \
+void h_##I##_op_diff(void) { struct I *s; struct I o; I##__op_sub__##I##_const(s, o); CANARY; } \
+void h_##I##_op_eq(void) { struct I *s; struct I o; I##__op_eq(s, o); CANARY; } \
+void h_##I##_op_ne(void) { struct I *s; struct I o; I##__op_ne(s, o); CANARY; } \
+void h_##I##_op_lt(void) { struct I *s; struct I o; I##__op_lt(s, o); CANARY; } \
+void h_##I##_op_gt(void) { struct I *s; struct I o; I##__op_gt(s, o); CANARY; } \
+void h_##I##_op_le(void) { struct I *s; struct I o; I##__op_le(s, o); CANARY; } \
+void h_##I##_op_ge(void) { struct I *s; struct I o; I##__op_ge(s, o); CANARY; } \
+void h_##I##_op_deref(void) { struct I *s; I##__op_deref(s); CANARY; }
+ITER_HARNESSES(ItT, RBt)
+ITER_HARNESSES(CItT, RBt)
+ITER_HARNESSES(ItF, RBf)
+ITER_HARNESSES(CItF, RBf)
